@@ -171,13 +171,13 @@ class Receiver:
         fobj.attrs["days"] = self.days
         fobj.attrs["stiffness"] = self.stiffness
 
-        grp = fobj.create_group("panels")
+        grp = fobj.create_group("panels", track_order=True)
 
         for name, panel in self.panels.items():
             sgrp = grp.create_group(name)
             panel.save(sgrp)
 
-        grp = fobj.create_group("flowpaths")
+        grp = fobj.create_group("flowpaths", track_order=True)
         for name, path in self.flowpaths.items():
             sgrp = grp.create_group(name)
             sgrp.create_dataset("panels", data=path["panels"])
@@ -333,7 +333,7 @@ class Panel:
         """
         fobj.attrs["stiffness"] = self.stiffness
 
-        grp = fobj.create_group("tubes")
+        grp = fobj.create_group("tubes", track_order=True)
 
         for name, tube in self.tubes.items():
             sgrp = grp.create_group(name)
